@@ -39,6 +39,10 @@ structure Cookie where
 def Request_URL (r : Request) : URL := r
 def Request_Method (r : Request) : Bytes := r.method
 def URL_Path (u : URL) : Bytes := u.path
+/-- `r.URL.Path = p` -/
+def Request_setPath (r : Request) (p : Bytes) : Request := { r with path := p }
+/-- `strings.TrimPrefix` -/
+def strings_TrimPrefix (s pre : Bytes) : Bytes := if pre.isPrefixOf s then s.drop pre.length else s
 def Request_Header (r : Request) : Header := r.header
 def Request_RemoteAddr (r : Request) : Bytes := r.remoteAddr
 def Cookie_Value (c : Cookie) : Bytes := c.value
